@@ -151,3 +151,5 @@ for _p in e1.INVS:
 import domain
 REGISTRY["C17"] = domain.c17
 REGISTRY["C14"] = domain.c14
+import store_engine
+REGISTRY["C09"] = store_engine.c09
